@@ -556,6 +556,11 @@ def rope_key(x):
 def _opaque_eq(x, y, leq):
     """content of unrelated opaque blobs: equality is a free Boolean (implies equal length)"""
     e = E()
+    if e.tags.get('collision_free'):
+        # assumption switch: distinct arguments of one uninterpreted function give distinct results
+        bx, by = full_view_blob(x) if isrope(x) else None, full_view_blob(y) if isrope(y) else None
+        if bx is not None and by is not None and bx is not by and bx.meta.get('uf') and bx.meta.get('uf') == by.meta.get('uf'):
+            return False
     kx, ky = rope_key(x), rope_key(y)
     key = ('opqeq',) + tuple(sorted([kx, ky], key=repr))
     cache = e.tags.setdefault('opaque_eq', {})
